@@ -93,7 +93,7 @@ def parse_cond(t):
     return parse_atom(t)
 
 
-def extract(src):
+def extract(src, mb_src):
     m = re.search(r"static PyObject \*direct_from_buffer\(CTypeDescrObject \*ct, PyObject \*x,\s*int require_writable\)\s*\{(.*?)\n\}\n",
                   src, re.S)
     if not m:
@@ -105,7 +105,7 @@ def extract(src):
                   r"else \{ PyErr_Format\(PyExc_ZeroDivisionError,", body)
     if not m:
         raise RegenError("direct_from_buffer: length computation changed shape")
-    return dict(text=m.group("c"), cond=parse_cond(m.group("c")), **extract_fetch(src))
+    return dict(text=m.group("c"), cond=parse_cond(m.group("c")), mb=extract_mb(mb_src), **extract_fetch(src))
 
 
 LEAVES = {"-1": "LUnknown", "ct->ct_size": "LCtSize",
@@ -156,11 +156,178 @@ def extract_fetch(src):
     return dict(fetch_text=st, fetch=expr)
 
 
+# ------------------------------------------------------------------------------------------ minibuffer.h bodies
+MB_SIGS = [
+    ("mb_item", r"static PyObject \*mb_item\(MiniBufferObj \*self, Py_ssize_t idx\)"),
+    ("mb_slice", r"static PyObject \*mb_slice\(MiniBufferObj \*self,\s*Py_ssize_t left, Py_ssize_t right\)"),
+    ("mb_ass_item", r"static int mb_ass_item\(MiniBufferObj \*self, Py_ssize_t idx, PyObject \*other\)"),
+    ("mb_ass_slice", r"static int mb_ass_slice\(MiniBufferObj \*self,\s*Py_ssize_t left, Py_ssize_t right, PyObject \*other\)"),
+]
+MB_PARAMS = {"mb_item": ["idx"], "mb_slice": ["left", "right"], "mb_ass_item": ["idx"], "mb_ass_slice": ["left", "right"]}
+MVARS = {"idx": "Vidx", "left": "Vleft", "right": "Vright", "size": "Vsize", "count": "Vcount"}
+MOPS = {"<": "TLt", ">": "TGt", ">=": "TGe", "<=": "TLe", "==": "TEq", "!=": "TNe"}
+MEXN = {"PyExc_IndexError": "XIndex", "PyExc_TypeError": "XType", "PyExc_ValueError": "XValue"}
+
+
+def m_expr(t, scope):
+    t = strip_parens(t)
+    parts = split_top(t, " - ")
+    if len(parts) > 1:
+        out = m_expr(parts[0], scope)
+        for x in parts[1:]:
+            out = "(ESub %s %s)" % (out, m_expr(x, scope))
+        return out
+    if t in MVARS:
+        if t not in scope:
+            raise RegenError("minibuffer.h: variable %r used before it is set" % t)
+        return "(EV %s)" % MVARS[t]
+    if t == "self->mb_size":
+        return "ESelfSize"
+    if t == "src_view.len":
+        if "src_view" not in scope:
+            raise RegenError("minibuffer.h: src_view.len used before _fetch_as_buffer")
+        return "ESrcLen"
+    if re.fullmatch(r"\d+", t):
+        return "(EConst %s)" % t
+    raise RegenError("minibuffer.h: unrecognised expression %r" % t)
+
+
+def m_test(t, scope):
+    t = strip_parens(t)
+    ors = split_top(t, "||")
+    if len(ors) > 1:
+        out = m_test(ors[0], scope)
+        for x in ors[1:]:
+            out = "(TOr %s %s)" % (out, m_test(x, scope))
+        return out
+    ands = split_top(t, "&&")
+    if len(ands) > 1:
+        out = m_test(ands[0], scope)
+        for x in ands[1:]:
+            out = "(TAnd %s %s)" % (out, m_test(x, scope))
+        return out
+    m = re.fullmatch(r"(.+?) (<=|>=|==|!=|<|>) (.+)", t)
+    if not m:
+        raise RegenError("minibuffer.h: unrecognised test %r" % t)
+    return "(%s %s %s)" % (MOPS[m.group(2)], m_expr(m.group(1), scope), m_expr(m.group(3), scope))
+
+
+def translate_mb(name, body):
+    """body: normalised text between the braces of one of the four functions -> list of Coq mstmt terms.
+    Every character of the body must be consumed by one of the recognised statement shapes."""
+    scope = set(MB_PARAMS[name])
+    declared = set()
+    out = []
+    rest = body.strip()
+    getter = name in ("mb_item", "mb_slice")
+    ret_err = "NULL" if getter else "-1"
+    E = r"([^;{}]+?)"
+    while rest:
+        m = re.match(r"Py_ssize_t (\w+); ?", rest)
+        if m and m.group(1) in MVARS:
+            declared.add(m.group(1))
+            rest = rest[m.end():]
+            continue
+        m = re.match(r"Py_buffer src_view; ?", rest)
+        if m:
+            declared.add("src_view")
+            rest = rest[m.end():]
+            continue
+        m = re.match(r"Py_ssize_t (\w+) = %s; ?" % E, rest)
+        if m and m.group(1) in MVARS:
+            out.append("SAssign %s %s" % (MVARS[m.group(1)], m_expr(m.group(2), scope)))
+            scope.add(m.group(1))
+            declared.add(m.group(1))
+            rest = rest[m.end():]
+            continue
+        m = re.match(r"if \(_fetch_as_buffer\(other, &src_view, 0\) < 0\) return -1; ?", rest)
+        if m and not getter and "src_view" in declared:
+            out.append("SFetch")
+            scope.add("src_view")
+            rest = rest[m.end():]
+            continue
+        m = re.match(r"if \(([^{};]+?)\) \{ (PyBuffer_Release\(&src_view\); )?PyErr_SetString\((PyExc_\w+), \"[^\"]*\"( \"[^\"]*\")*\); "
+                     r"return %s; \} ?" % re.escape(ret_err), rest)
+        if m and m.group(3) in MEXN and (bool(m.group(2)) == ("src_view" in scope)):
+            out.append("SIfRaise %s %s" % (m_test(m.group(1), scope), MEXN[m.group(3)]))
+            rest = rest[m.end():]
+            continue
+        m = re.match(r"if \(([^{};]+?)\) (\w+) = %s; ?" % E, rest)
+        if m and m.group(2) in MVARS and (m.group(2) in scope):
+            out.append("SIfAssign %s %s %s" % (m_test(m.group(1), scope), MVARS[m.group(2)], m_expr(m.group(3), scope)))
+            rest = rest[m.end():]
+            continue
+        m = re.match(r"(\w+) = %s; ?" % E, rest)
+        if m and m.group(1) in MVARS and (m.group(1) in scope or m.group(1) in declared):
+            out.append("SAssign %s %s" % (MVARS[m.group(1)], m_expr(m.group(2), scope)))
+            scope.add(m.group(1))
+            rest = rest[m.end():]
+            continue
+        m = re.match(r"return PyBytes_FromStringAndSize\(self->mb_data \+ ([^,;]+?), %s\); ?" % E, rest)
+        if m and getter:
+            out.append("SRetBytes %s %s" % (m_expr(m.group(1), scope), m_expr(m.group(2), scope)))
+            rest = rest[m.end():]
+            if rest:
+                raise RegenError("%s: code after the return: %r" % (name, rest[:80]))
+            continue
+        m = re.match(r"if \(PyBytes_Check\(other\) && PyBytes_GET_SIZE\(other\) == 1\) \{ "
+                     r"self->mb_data\[([^\]]+)\] = PyBytes_AS_STRING\(other\)\[0\]; return 0; \} "
+                     r"else \{ PyErr_Format\(PyExc_TypeError, [^;]*\); return -1; \} ?", rest)
+        if m and name == "mb_ass_item":
+            out.append("SStoreByte %s" % m_expr(m.group(1), scope))
+            rest = rest[m.end():]
+            if rest:
+                raise RegenError("%s: code after the store: %r" % (name, rest[:80]))
+            continue
+        m = re.match(r"(memcpy|memmove)\(self->mb_data \+ ([^,;]+?), src_view\.buf, ([^,;]+?)\); "
+                     r"PyBuffer_Release\(&src_view\); return 0; ?", rest)
+        if m and name == "mb_ass_slice" and "src_view" in scope:
+            out.append("SCopy %s %s %s" % ({"memcpy": "Memcpy", "memmove": "Memmove"}[m.group(1)],
+                                           m_expr(m.group(2), scope), m_expr(m.group(3), scope)))
+            rest = rest[m.end():]
+            if rest:
+                raise RegenError("%s: code after the copy: %r" % (name, rest[:80]))
+            continue
+        raise RegenError("%s: unrecognised statement at %r" % (name, rest[:100]))
+    if not out or not out[-1].startswith(("SRetBytes", "SStoreByte", "SCopy")):
+        raise RegenError("%s: body does not end in a recognised return" % name)
+    return out
+
+
+def extract_mb(mb_src):
+    """the four bodies of src/c/minibuffer.h -> dict name -> (normalised text, [mstmt terms])"""
+    res = {}
+    for name, sig in MB_SIGS:
+        ms = list(re.finditer(sig + r"\s*\{(.*?)\n\}\n", mb_src, re.S))
+        if len(ms) != 1:
+            raise RegenError("minibuffer.h: %s found %d times" % (name, len(ms)))
+        body = norm(ms[0].group(1))
+        res[name] = (body, translate_mb(name, body))
+    # the dispatch table must still route the sequence slots to these four functions
+    table = norm(mb_src)
+    for slot in ("(ssizeargfunc)mb_item, ", "(ssizessizeargfunc)mb_slice, ", "(ssizeobjargproc)mb_ass_item, ",
+                 "(ssizessizeobjargproc)mb_ass_slice, "):
+        if slot not in table:
+            raise RegenError("minibuffer.h: mb_as_sequence no longer has %r" % slot.strip())
+    return res
+
+
+def render_mb(mb):
+    out = ["\n(* ---- src/c/minibuffer.h: the bodies of mb_item, mb_slice, mb_ass_item, mb_ass_slice, statement by\n"
+           "   statement (language: C19/Types.v, semantics: C19/MbSem.v) *)\nRequire Import List.\nImport ListNotations.\n"]
+    for name, _ in MB_SIGS:
+        text, stmts = mb[name]
+        out.append("(* %s:\n     %s *)\nDefinition gen_%s : list mstmt :=\n  [ %s ].\n"
+                   % (name, text.replace("*)", "* )").replace("(*", "( *"), name, ";\n    ".join(stmts)))
+    return "\n".join(out)
+
+
 def render(t):
-    return ("(* GENERATED by tools/props/c19_regen.py from src/c/_cffi_backend.c (direct_from_buffer) - do not edit. *)\n"
+    return ("(* GENERATED by tools/props/c19_regen.py from src/c/_cffi_backend.c (direct_from_buffer, _fetch_as_buffer) and src/c/minibuffer.h - do not edit. *)\n"
             "From Coq Require Import ZArith.\nFrom Cffi Require Import C19.Types.\nOpen Scope Z_scope.\n\n"
             "(* the test guarding `arraylength = view->len` for an open array 'T[]':\n     %s *)\n"
             "Definition gen_from_buffer_fast : cond := %s.\n\n"
             "(* _fetch_as_buffer, cdata source: the statements computing view->len:\n     %s *)\n"
             "Definition gen_fetch_len : lenexpr := %s.\n"
-            % (t["text"].replace("*)", "* )"), t["cond"], t["fetch_text"].replace("*)", "* )"), t["fetch"]))
+            % (t["text"].replace("*)", "* )"), t["cond"], t["fetch_text"].replace("*)", "* )"), t["fetch"])
+            + render_mb(t["mb"]))
